@@ -398,6 +398,53 @@ func c20Special(chk *fw.Check) int {
 				chk.Violation("C20|cycle-"+res.Verdict.String()+"|"+sig+" cleanup-during-refresh", firstLines(res.Detail, 5), nil)
 			}
 		}
+		// (1a') Cleanup comes while the updater goroutine is still in its very first update run (the one it makes before it
+		// starts to wait for ticks and for the stop signal): it must end all the same
+		{
+			n++
+			sig := fmt.Sprintf("backend=%s cleanup-during-the-first-update-run", be(disk))
+			res := seqWorld(func() {
+				dir := FreshDir("c20k")
+				defer os.RemoveAll(dir)
+				net := world.NewNet()
+				hits, cleaned := 0, false
+				var w *CW
+				net.Routes[urlA] = &world.Behaviour{Label: "v1-cleanup-at-the-first-update-run", Fn: func(req *http.Request, body []byte) (int, []byte, error) {
+					hits++
+					// Provision itself fetches the configured list twice (load, update); the next request is the updater's
+					if hits == 3 && !cleaned {
+						cleaned = true
+						if err := w.Chk.Cleanup(); err != nil {
+							chk.Violation("C20|cleanup-error|"+sig, err.Error(), nil)
+						}
+					}
+					return 200, v1, nil
+				}}
+				w = NewCW(CWOpt{Disk: disk, SigMode: config.SignatureValidationModeVerify, Dir: dir, Net: net, Trusted: []*x509.Certificate{p.CA.Cert}, URLs: []string{urlA}, Interval: "10m"})
+				if err := w.Provision(); err != nil {
+					chk.Violation("C20|cycle-provision-fails|"+sig, err.Error(), nil)
+					return
+				}
+				vsched.Drain()
+				if !cleaned {
+					// (the updater's first run did not fetch: nothing to observe in this tree)
+					w.Chk.Cleanup()
+					vsched.Drain()
+					return
+				}
+				vsched.Advance(21 * time.Minute)
+				vsched.Drain()
+				if live, sites := vsched.Live(); live > 0 {
+					chk.Violation("C20|background-activity-after-cleanup", fmt.Sprintf("%s: %d goroutine(s) still alive: %v", sig, live, sites), nil)
+				}
+				if open := vleveldb.OpenPaths(); len(open) > 0 {
+					chk.Violation("C20|database-handle-open-after-cleanup|"+sig, fmt.Sprintf("%d database handle(s) open: %v", len(open), open), nil)
+				}
+			})
+			if res.Verdict != vsched.OK {
+				chk.Violation("C20|cycle-"+res.Verdict.String()+"|"+sig, firstLines(res.Detail, 5), nil)
+			}
+		}
 		// (1b) the same during the very first load of a distribution point in fetch_background (the load is staged without
 		// the entry lock; when it comes to putting the list in place the repository is closed)
 		{
